@@ -1,0 +1,76 @@
+//! Verification hooks (cargo feature `verif`, off by default).
+//!
+//! Nothing in here changes behaviour unless a harness arms it: `exit_hook` returns
+//! immediately when not armed, the event log and tick counter are inert thread-locals.
+
+use std::cell::{Cell, RefCell};
+
+/// Payload of the unwind that replaces `std::process::exit(code)` while armed.
+pub struct VerifExit(pub i32);
+/// Payload of the unwind raised when the iteration budget of the run loop is exhausted.
+pub struct VerifFuel;
+
+#[derive(Clone, Copy, Debug, PartialEq, Eq)]
+pub enum Event {
+    /// The run loop is about to execute the instruction at this address.
+    Exec(u16),
+    /// The debugger has read (and parsed) one command.
+    Cmd,
+}
+
+thread_local! {
+    static ARMED: Cell<bool> = const { Cell::new(false) };
+    static FUEL: Cell<Option<u64>> = const { Cell::new(None) };
+    static TICKS: Cell<u64> = const { Cell::new(0) };
+    static LOGGING: Cell<bool> = const { Cell::new(false) };
+    static EVENTS: RefCell<Vec<Event>> = const { RefCell::new(Vec::new()) };
+}
+
+/// While armed, `process::exit` call sites unwind with [`VerifExit`] instead of exiting.
+pub fn arm(on: bool) {
+    ARMED.with(|a| a.set(on));
+}
+
+pub fn exit_hook(code: i32) {
+    if ARMED.with(|a| a.get()) {
+        std::panic::resume_unwind(Box::new(VerifExit(code)));
+    }
+}
+
+/// Budget of run-loop iterations (`None` = unlimited). Resets the tick counter.
+pub fn set_fuel(fuel: Option<u64>) {
+    FUEL.with(|f| f.set(fuel));
+    TICKS.with(|t| t.set(0));
+}
+
+/// Called at the top of every iteration of `RunEnvironment::run`.
+pub fn tick() {
+    TICKS.with(|t| t.set(t.get() + 1));
+    FUEL.with(|f| {
+        if let Some(left) = f.get() {
+            if left == 0 {
+                std::panic::resume_unwind(Box::new(VerifFuel));
+            }
+            f.set(Some(left - 1));
+        }
+    });
+}
+
+pub fn ticks() -> u64 {
+    TICKS.with(|t| t.get())
+}
+
+pub fn set_logging(on: bool) {
+    LOGGING.with(|l| l.set(on));
+    EVENTS.with(|e| e.borrow_mut().clear());
+}
+
+pub fn event(event: Event) {
+    if LOGGING.with(|l| l.get()) {
+        EVENTS.with(|e| e.borrow_mut().push(event));
+    }
+}
+
+pub fn take_events() -> Vec<Event> {
+    EVENTS.with(|e| std::mem::take(&mut *e.borrow_mut()))
+}
